@@ -168,8 +168,11 @@ def pickOp (t : Tbl) (u : Int) (care : Option (List String)) :
   | .error e => .error e
   | .ok l => .ok l.head?
 
+/-- keys of `{k: … for k in l}` in dict order: every name at its FIRST position -/
+def dictKeys (l : List String) : List String := (dedup l.reverse).reverse
+
 /-- `cube(dvars)` for an iterable of names that is not a `dict`: `{k: True for k in dvars}` -/
-def cubeNames (names : List String) : M Int := cube ((dedup names).map fun k => (k, true))
+def cubeNames (names : List String) : M Int := cube ((dictKeys names).map fun k => (k, true))
 
 /-- `BDD.copy(u, other)` = `copy_bdd(u, self, other)` -/
 def copyMethod (src : Tbl) (u : Int) : M Int := copyBdd src u
